@@ -47,6 +47,7 @@ type R struct {
 	Assume   []string
 	Explain  string
 	Extra    map[string]interface{}
+	Anchors  []*ssa.Function // functions resolved by NeedFn (normalised too when a rule fails, even if the rule found nothing in them)
 }
 
 func NewR(w *World, prop, tier string) *R {
@@ -132,6 +133,7 @@ func (r *R) NeedFn(rule, name string) *ssa.Function {
 		r.addS(rule, name, "anchor", "-", Undecided, "anchored function not found in the loaded program")
 		return nil
 	}
+	r.Anchors = append(r.Anchors, fn)
 	return fn
 }
 
